@@ -116,14 +116,15 @@ func buildVal(v valDesc) *pb.TypedValue {
 	panic("cache: unknown value arm " + v.Arm)
 }
 
-type pathPool map[int]*pb.Path
+type pathPool map[string]*pb.Path
 
 func (pp pathPool) build(d *pathDesc) *pb.Path {
 	if d == nil {
 		return nil
 	}
+	key := fmt.Sprintf("%d|%s|%s", d.Shared, d.Target, d.Origin)
 	if d.Shared > 0 {
-		if p, ok := pp[d.Shared]; ok {
+		if p, ok := pp[key]; ok {
 			return p
 		}
 	}
@@ -146,7 +147,7 @@ func (pp pathPool) build(d *pathDesc) *pb.Path {
 		p.Element = append(p.Element, d.Element...)
 	}
 	if d.Shared > 0 {
-		pp[d.Shared] = p
+		pp[key] = p
 	}
 	return p
 }
